@@ -76,7 +76,8 @@ impl PatchHeader {
 
     /// Set the author of the patch.
     pub fn set_author(&mut self, author: &str) {
-        if self.0.contains_key("From") {
+        // write the field that author() reads: Author wins over From
+        if !self.0.contains_key("Author") && self.0.contains_key("From") {
             self.0.set("From", author);
         } else {
             self.0.set("Author", author);
@@ -174,10 +175,11 @@ impl PatchHeader {
             Some((_, rest)) => format!("{}\n{}", description, rest),
             None => description.to_string(),
         };
-        if let Some(subject) = self.0.get("Subject") {
-            self.0.set("Subject", with_rest(&subject).as_str());
-        } else if let Some(old) = self.0.get("Description") {
+        // write the field that description() reads: Description wins over Subject
+        if let Some(old) = self.0.get("Description") {
             self.0.set("Description", with_rest(&old).as_str());
+        } else if let Some(subject) = self.0.get("Subject") {
+            self.0.set("Subject", with_rest(&subject).as_str());
         } else {
             self.0.set("Description", description);
         }
@@ -192,15 +194,8 @@ impl PatchHeader {
 
     /// Set the long description of the patch.
     pub fn set_long_description(&mut self, long_description: &str) {
-        if let Some(subject) = self.0.get("Subject") {
-            // Keep the first line, but replace the rest with our text
-            let first_line = subject
-                .split_once('\n')
-                .map(|x| x.0)
-                .unwrap_or(subject.as_str());
-            let new = format!("{}\n{}", first_line, long_description);
-            self.0.set("Subject", new.as_str());
-        } else if let Some(description) = self.0.get("Description") {
+        // write the field that long_description() reads: Description wins over Subject
+        if let Some(description) = self.0.get("Description") {
             // Keep the first line, but replace the rest with our text
             let first_line = description
                 .split_once('\n')
@@ -208,6 +203,14 @@ impl PatchHeader {
                 .unwrap_or(description.as_str());
             let new = format!("{}\n{}", first_line, long_description);
             self.0.set("Description", new.as_str());
+        } else if let Some(subject) = self.0.get("Subject") {
+            // Keep the first line, but replace the rest with our text
+            let first_line = subject
+                .split_once('\n')
+                .map(|x| x.0)
+                .unwrap_or(subject.as_str());
+            let new = format!("{}\n{}", first_line, long_description);
+            self.0.set("Subject", new.as_str());
         } else {
             self.0.set("Description", long_description);
         }
